@@ -19,7 +19,7 @@ def register(J):
         s = "set%sValueNum" % suf
         J.append(Job("numget." + g, ["C09", "C10", "C08", "C04"], "harness/numget.c",
                      sources=["lib/keyfile.c"], stubs=["stubs/numtext.c"],
-                     contracts=["contracts/keyfile_num.h"], enforce=g, unwind=2, tier="T1",
+                     contracts=["contracts/keyfile_num.h"], enforce=g, unwind=8, tier="T1",
                      model="M-tag (numeric text is an opaque tagged buffer)",
                      defines=["-DGETTER=" + g, "-DRT=" + ct, "-D" + kind],
                      replay="numget" if kind == "KIND_INT" else None,
@@ -42,7 +42,7 @@ def register(J):
             defs.append("-DSIGNF=" + sign)
         J.append(Job("numrt." + suf, ["C08"], "harness/numrt.c",
                      sources=["lib/keyfile.c"], stubs=["stubs/numtext.c"],
-                     contracts=["contracts/keyfile_num.h"], replace=[s, g], unwind=2, tier="T1",
+                     contracts=["contracts/keyfile_num.h"], replace=[s, g], unwind=8, tier="T1",
                      model="M-tag", defines=defs, trusted=KEYFILE_TRUST, timeout=300, mem_gb=4,
                      functions=[s, g],
                      statement="C08 lemma: the setter's and the getter's contracts compose to "
